@@ -110,10 +110,11 @@ def baseOf (q : Obj) (mask : Mask) : Obj :=
 /-- single (Python scalar) value: the state is the object, nothing is encoded -/
 theorem rt_single (P : Params) (q : Obj) (x : Bits) (b : Bool)
     (hv : q.vals = .single x) (hm : q.mask = .scalar b) :
-    getstate1 P q = (q.toSt (.single x) (.scalar b) [] [], none, []) ∧
-    setstate1 P (getstate1 P q).1 = some ({ baseOf q (.scalar b) with vals := .single x }, none) := by
-  have h1 : getstate1 P q = (q.toSt (.single x) (.scalar b) [] [], none, []) := by
-    simp [getstate1, hv, hm, Mask.toPM]
+    getstate1 P q = (q.toSt (.single (if b then q.default.getD 0 0 else x)) (.scalar b) [] [], none, []) ∧
+    setstate1 P (getstate1 P q).1 =
+      some ({ baseOf q (.scalar b) with vals := .single (if b then q.default.getD 0 0 else x) }, none) := by
+  have h1 : getstate1 P q = (q.toSt (.single (if b then q.default.getD 0 0 else x)) (.scalar b) [] [], none, []) := by
+    simp [getstate1, hv, hm, Mask.toPM, Mask.all]
   refine ⟨h1, ?_⟩
   rw [h1]
   simp [setstate1, Obj.toSt, decodeMaskLoop, decodeValsLoop, baseOf]
